@@ -26,7 +26,7 @@ def campaigns(tier, seed):
 
 def run_campaign(v, exe, name, args, wd):
     f = os.path.join(wd, name + ".ndjson")
-    rc, out = vlib.run("%s %s > %s" % (exe, args, f), timeout=7000)
+    rc, out = vlib.run("%s %s > %s" % (exe, args, f), timeout=7000, mem_gb=16)
     m = re.search(r"STATS cases=(\d+) emitted=(\d+) encfail=(\d+)", out)
     if rc != 0 or not m:
         return f, None, (rc, out)
